@@ -24,6 +24,8 @@ def run(rep, idx, tier):
     rep.require("C07.5", 5)
     rep.require("C07.6", 1)
     rep.require("C07.8", 1)
+    rep.require("C07.9", 1)
+    glue.map_parameters(rep, "C07.9", idx, "wishbone/bus:Decoder", [("alignment", "alignment")])
     glue.reset_discipline(rep, "C07.8", idx, ["wishbone/bus:Decoder"])
     c = get_ctx(idx, "wishbone:Decoder.elaborate")
     rep.analysed(c.fi.site)
